@@ -96,11 +96,27 @@ def subclass_closure(table):
 # generator (builds real pytd nodes through the real constructors)
 
 class Gen:
-  def __init__(self, r, uni, kind, allow_named_none=True):
+  def __init__(self, r, uni, kind, allow_named_none=True, templates=False):
     self.r = r
     self.u = uni
     self.kind = kind            # "n" NamedType, "c" ClassType, "mixed"
     self.allow_named_none = allow_named_none
+    self.templates = templates  # generic classes / signatures with TypeParameters (bounds, constraints)
+    self.tvars = []             # the TypeParameters in scope at the position being generated
+    self._tp = 0
+
+  def new_tparam(self, scope, plain=False):
+    """A fresh TypeParameter; 25% bounded, 10% constrained (bounds/constraints are parameter-free types)."""
+    r = self.r
+    self._tp += 1
+    x = r.random()
+    bound, cons = None, ()
+    if not plain:
+      if x < 0.25:
+        bound = self.ref(r.choice([8, 1, 9] + USER_IDS[:3]))
+      elif x < 0.35:
+        cons = tuple(self.ref(c) for c in r.sample([8, 2, 10, 9] + USER_IDS[:2], 2))
+    return pytd.TypeParameter(name="T%d" % self._tp, constraints=cons, bound=bound, scope=scope)
 
   def ref(self, cid):
     k = self.kind if self.kind != "mixed" else self.r.choice("nc")
@@ -109,6 +125,8 @@ class Gen:
 
   def leaf(self):
     r = self.r
+    if self.tvars and r.random() < 0.3:
+      return r.choice(self.tvars)
     x = r.random()
     if x < 0.08:
       return pytd.AnythingType()
@@ -137,6 +155,10 @@ class Gen:
       w = width if width is not None else r.choice([2, 2, 2, 3, 3, 4, 5, 6, 7, 8, 9])
       members = []
       style = r.random()
+      if len(self.tvars) >= 2 and r.random() < 0.6:
+        # unions of type parameters: what MergeTypeParameters looks for
+        members = r.sample(self.tvars, r.choice([2, 2, 3]) if len(self.tvars) >= 3 else 2)
+        w = max(0, min(w, 3) - len(members)) + (1 if r.random() < 0.3 else 0)
       for i in range(w):
         if style < 0.35 and members and r.random() < 0.6:
           # same-base containers / related members so that merging and absorption fire
@@ -199,7 +221,7 @@ class Gen:
     return pytd.Parameter(name=name or ("p%d" % idx), type=t, kind=kind, optional=r.random() < 0.2,
                           mutated_type=mut)
 
-  def signature(self, params=None):
+  def signature(self, params=None, template=()):
     r = self.r
     if params is None:
       params = tuple(self.param(i + 2) for i in range(r.choice([0, 1, 1, 2, 3])))
@@ -207,7 +229,8 @@ class Gen:
     starstar = self.param(91, "kwargs", False) if r.random() < 0.1 else None
     exc = tuple(self.ty(1) for _ in range(r.choice([0, 0, 0, 1, 2])))
     return pytd.Signature(params=tuple(params), starargs=star, starstarargs=starstar,
-                          return_type=self.ty(r.choice([1, 2, 3, 3])), exceptions=exc, template=())
+                          return_type=self.ty(r.choice([1, 2, 3, 3])), exceptions=exc,
+                          template=tuple(pytd.TemplateItem(t) for t in template))
 
   def function(self, idx, cls_id=None):
     r = self.r
@@ -234,21 +257,29 @@ class Gen:
     nsig = r.choice([1, 1, 2, 2, 3, 4])
     sigs = []
     base_params = None
-    for _ in range(nsig):
-      if base_params is not None and r.random() < 0.65:
-        # overloads that differ only in return/exceptions, or exact duplicates
-        prev = r.choice(sigs)
-        if r.random() < 0.3:
-          sigs.append(prev)
-        else:
-          s = self.signature(params=prev.params)
-          sigs.append(s.Replace(starargs=prev.starargs, starstarargs=prev.starstarargs))
-        continue
-      ps = [self.param(i + 2) for i in range(r.choice([0, 1, 1, 2, 3]))]
-      if first is not None:
-        ps = [first] + ps
-      base_params = ps
-      sigs.append(self.signature(params=ps))
+    outer = list(self.tvars)
+    ftps = []
+    if self.templates and r.random() < (0.7 if outer else 0.35):
+      ftps = [self.new_tparam("f%d" % idx) for _ in range(r.choice([1, 1, 2, 3]))]
+    self.tvars = outer + ftps
+    try:
+      for _ in range(nsig):
+        if base_params is not None and r.random() < 0.65:
+          # overloads that differ only in return/exceptions, or exact duplicates
+          prev = r.choice(sigs)
+          if r.random() < 0.3:
+            sigs.append(prev)
+          else:
+            s = self.signature(params=prev.params, template=ftps)
+            sigs.append(s.Replace(starargs=prev.starargs, starstarargs=prev.starstarargs))
+          continue
+        ps = [self.param(i + 2) for i in range(r.choice([0, 1, 1, 2, 3] if not ftps else [1, 1, 2, 3]))]
+        if first is not None:
+          ps = [first] + ps
+        base_params = ps
+        sigs.append(self.signature(params=ps, template=ftps))
+    finally:
+      self.tvars = outer
     return pytd.Function(name="f%d" % idx, signatures=tuple(sigs), kind=kind)
 
   def constant(self, idx):
@@ -265,13 +296,20 @@ class Gen:
     classes = []
     for cid in sorted(self.u.in_node):
       ms, cs = [], []
-      if r.random() < 0.35:
+      ctps = []
+      if self.templates and r.random() < 0.55:
+        ctps = [self.new_tparam(self.u.names[cid], plain=r.random() < 0.6) for _ in range(r.choice([1, 1, 2]))]
+      self.tvars = list(ctps)
+      if r.random() < (0.9 if ctps else 0.35):
         for j in range(r.choice([1, 1, 2])):
-          if r.random() < 0.7:
+          if r.random() < 0.7 or ctps:
             ms.append(self.function(100 + j, cls_id=cid))
           else:
             cs.append(self.constant(100 + j))
+      self.tvars = []
       cls = self.u.mk_class(cid, ms, cs)
+      if ctps:
+        cls = cls.Replace(template=tuple(pytd.TemplateItem(t) for t in ctps))
       if self.kind == "n":
         cls = cls.Replace(bases=tuple(pytd.NamedType(b.name) for b in cls.bases))
       classes.append(cls)
@@ -325,6 +363,20 @@ class Codec:
       raise Unsupported("class name %r" % b.name)
     return k + str(self.u.ids[b.name])
 
+  def scope(self, sc):
+    """None -> 0, a class of the universe -> its id, "f<k>" -> 1000 + k"""
+    if sc is None:
+      return 0
+    if sc in self.u.ids:
+      return self.u.ids[sc]
+    return 1000 + _num(sc, "f")
+
+  def tmpl(self, items):
+    for it in items:
+      if type(it.type_param) is not pytd.TypeParameter:
+        raise Unsupported("template item %r" % (it,))
+    return " (tmpl%s)" % "".join(" " + self.ty(it.type_param) for it in items) if items else ""
+
   def ty(self, t):
     cls = type(t)
     if cls in (pytd.NamedType, pytd.ClassType):
@@ -339,6 +391,12 @@ class Codec:
       return "L%d" % t.value
     if cls is pytd.UnionType:
       return "(U %s)" % " ".join(self.ty(x) for x in t.type_list)
+    if cls is pytd.TypeParameter:
+      if t.default is not None:
+        raise Unsupported("type parameter default")
+      kids = ([t.bound] if t.bound is not None else []) + list(t.constraints)
+      return "(V %d %d %d%s)" % (_num(t.name, "T"), self.scope(t.scope), 1 if t.bound is not None else 0,
+                                 "".join(" " + self.ty(x) for x in kids))
     tag = {pytd.GenericType: "G", pytd.TupleType: "T", pytd.CallableType: "F"}.get(cls)
     if tag is None:
       raise Unsupported("type node %s" % cls.__name__)
@@ -351,11 +409,9 @@ class Codec:
                                    "-" if p.mutated_type is None else self.ty(p.mutated_type))
 
   def sig(self, s):
-    if s.template:
-      raise Unsupported("template")
-    return "(S (params%s) %s %s %s (exc%s))" % (
+    return "(S (params%s) %s %s %s (exc%s)%s)" % (
         "".join(" " + self.param(p) for p in s.params), self.param(s.starargs), self.param(s.starstarargs),
-        self.ty(s.return_type), "".join(" " + self.ty(e) for e in s.exceptions))
+        self.ty(s.return_type), "".join(" " + self.ty(e) for e in s.exceptions), self.tmpl(s.template))
 
   def func(self, f):
     if f.decorators or f.flags != pytd.MethodFlag.NONE:
@@ -368,11 +424,12 @@ class Codec:
     return "(K %d %s)" % (_num(c.name, "x"), self.ty(c.type))
 
   def cls(self, c):
-    if c.keywords or c.classes or c.decorators or c.slots is not None or c.template:
+    if c.keywords or c.classes or c.decorators or c.slots is not None:
       raise Unsupported("class features")
-    return "(C %d (bases%s) (methods%s) (consts%s))" % (
+    return "(C %d (bases%s) (methods%s) (consts%s)%s)" % (
         self.u.ids[c.name], "".join(" " + self.base(b) for b in c.bases),
-        "".join(" " + self.func(f) for f in c.methods), "".join(" " + self.const(k) for k in c.constants))
+        "".join(" " + self.func(f) for f in c.methods), "".join(" " + self.const(k) for k in c.constants),
+        self.tmpl(c.template))
 
   def unit(self, u):
     if u.type_params or u.aliases:
@@ -429,6 +486,12 @@ class Decoder:
     tag = x[0]
     if tag == "U":
       return pytd.UnionType(tuple(self.ty(y) for y in x[1:]))
+    if tag == "V":
+      sc = int(x[2])
+      scope = None if sc == 0 else ("f%d" % (sc - 1000) if sc >= 1000 else self.names[sc])
+      kids = [self.ty(y) for y in x[4:]]
+      bound = kids.pop(0) if x[3] == "1" else None
+      return pytd.TypeParameter(name="T" + x[1], constraints=tuple(kids), bound=bound, scope=scope)
     cls = {"G": pytd.GenericType, "T": pytd.TupleType, "F": pytd.CallableType}[tag]
     return cls(self.base(x[1]), tuple(self.ty(y) for y in x[2:]))
 
@@ -441,10 +504,13 @@ class Decoder:
     return pytd.Parameter(name=name, type=self.ty(x[2]), kind=kind, optional=x[4] == "1",
                           mutated_type=None if x[5] == "-" else self.ty(x[5]))
 
+  def tmpl(self, x, i):
+    return tuple(pytd.TemplateItem(self.ty(t)) for t in x[i][1:]) if len(x) > i else ()
+
   def sig(self, x):
     return pytd.Signature(params=tuple(self.param(p) for p in x[1][1:]), starargs=self.param(x[2]),
                           starstarargs=self.param(x[3]), return_type=self.ty(x[4]),
-                          exceptions=tuple(self.ty(e) for e in x[5][1:]), template=())
+                          exceptions=tuple(self.ty(e) for e in x[5][1:]), template=self.tmpl(x, 6))
 
   def func(self, x):
     kind = {v: k for k, v in _MK.items()}[int(x[2])]
@@ -457,7 +523,7 @@ class Decoder:
     return pytd.Class(name=self.names[int(x[1])], keywords=(), bases=tuple(self.base(b) for b in x[2][1:]),
                       methods=tuple(self.func(f) for f in x[3][1:]),
                       constants=tuple(self.const(c) for c in x[4][1:]), classes=(), decorators=(), slots=None,
-                      template=())
+                      template=self.tmpl(x, 5))
 
   def unit(self, x):
     return pytd.TypeDeclUnit(name="m", constants=tuple(self.const(c) for c in x[1][1:]), type_params=(),
@@ -568,6 +634,8 @@ class Oracle:
       return self.class_values(t.name)
     if cls is pytd.Literal:
       return [V("lit", t.value)] if type(t.value) is int else []
+    if cls is pytd.TypeParameter:
+      return self.inhabitants(t.upper_value, depth, cap)
     if cls is pytd.UnionType:
       out = []
       per = max(3, cap // max(1, len(t.type_list)))
@@ -625,6 +693,12 @@ class Oracle:
       return v.tag == "lit" and v.a == t.value
     if cls is pytd.UnionType:
       return any(self.admits(x, v) for x in t.type_list)
+    if cls is pytd.TypeParameter:
+      # read as its upper value: union of the constraints, else the bound, else Any (independent of
+      # pytd.TypeParameter.upper_value on purpose)
+      if t.constraints:
+        return any(self.admits(x, v) for x in t.constraints)
+      return True if t.bound is None else self.admits(t.bound, v)
     if cls is pytd.GenericType:
       if not self.sub(self.cls_of(v), t.base_type.name):
         return False
